@@ -178,15 +178,15 @@ def _oracle_word(w):
 
 
 def _oracle_subnet(s):
-    from ciscoconfparse2.ccp_util import IPv4Obj, IPv6Obj
-    r = None
-    for fam, cls in ((4, IPv4Obj), (6, IPv6Obj)):
-        try:
-            o = cls(s)
-            r = [fam, int(o.as_decimal), int(o.prefixlen)]
-        except BaseException:
-            pass
-    return r
+    """a requested subnet as the standard library reads it: [family, address, prefix length] (None = not a subnet)"""
+    from props import c11
+    r = c11._std4(s)
+    if r is not None:
+        return [4, r[0], r[1]]
+    r = c11._std6(s)
+    if r is not None:
+        return [6, r[0], r[1]]
+    return None
 
 
 def run_ip(c):
